@@ -291,6 +291,7 @@ func (x *seqRun) checkImage(img *simdisk.Image, states []*Model, metas []string,
 		meta := metaOfDump(ents)
 		var m *Model
 		var lastErr error
+		matched := -1
 		for j := hi; j >= lo; j-- {
 			if metas[j] != meta {
 				continue
@@ -302,6 +303,7 @@ func (x *seqRun) checkImage(img *simdisk.Image, states []*Model, metas []string,
 				continue
 			}
 			m = cand
+			matched = j
 			x.res.count(fmt.Sprintf("recovered_to_hi_minus_%d", min(hi-j, 3)), 1)
 			break
 		}
@@ -341,7 +343,7 @@ func (x *seqRun) checkImage(img *simdisk.Image, states []*Model, metas []string,
 			if err := m.Step(in, out); err != nil {
 				fail("crash-state", sigOf("continuation-"+in.K, err.Error()), "operation after recovery: "+describeIn(in)+": "+err.Error())
 			}
-			ch.stable = append(ch.stable, stable && out.Status == 0)
+			ch.stable = append(ch.stable, stable && stableAck(in, out))
 			ch.states = append(ch.states, m.Clone())
 			return out
 		}
@@ -410,6 +412,61 @@ func (x *seqRun) checkImage(img *simdisk.Image, states []*Model, metas []string,
 				nm := fmt.Sprintf("zz-reuse%d", i)
 				if _, exists := m.Objs[m.Root].Kids[nm]; !exists {
 					step(&In{K: "create", Obj: rootH, Name: nm, How: 1}, true)
+				}
+			}
+		}
+		// generated continuation: the operations of the history that the crash cut
+		// off are issued again, against the recovered server and the matching
+		// reference state ("the recovered server keeps serving further operations
+		// correctly" - on the objects, caches and allocator state that recovery left)
+		firstLevel := len(states) == len(x.states) && states[0] == x.states[0]
+		if firstLevel && matched >= 0 && viol == nil {
+			budget := 6
+			if spec.Tier == "thorough" {
+				budget = 12
+			}
+			if img.Hash()%3 == 0 {
+				budget *= 3
+			}
+			tbl := map[int]string{}
+			for id, at := range x.tblAt {
+				if at < matched {
+					tbl[id] = x.tbl[id]
+				}
+			}
+			ops := spec.Clients[0]
+			done := 0
+			for i := matched; i < len(ops) && done < budget && viol == nil; i++ {
+				op := &ops[i]
+				if op.K == "restart" || op.K == "fillto" {
+					break
+				}
+				if isSpecialOp(op.K) {
+					continue
+				}
+				in := toIn(op, tbl, &m.Lim)
+				if in == nil {
+					continue
+				}
+				simrt.SetTag(fmt.Sprintf("continuation after recovery: op %d %s issued again", i, describeIn(in)))
+				before := m.NextID
+				out := step(in, true)
+				if m.NextID > before {
+					tbl[op.ID] = out.H
+				}
+				done++
+			}
+			x.res.count("continuation_replayed_ops", int64(done))
+			if done > 0 && viol == nil {
+				simrt.WaitUntil("background shrinker to finish", func() bool { return rig.Srv.VerifShrinkerThreads() == 0 })
+				simrt.Quiesce()
+				if i3, err := fsck(rig, x.nameMax); err != nil {
+					fail("fsck", "fsck:"+err.(*fsckErr).clause, fmt.Sprintf("after recovery and %d further operations: %s", done, err.Error()))
+				} else if err := conservation(i3); err != nil {
+					fail("conservation", "conservation:"+err.(*fsckErr).clause, fmt.Sprintf("after recovery and %d further operations: %s", done, err.Error()))
+				}
+				if err := cacheCoherence(rig); err != nil {
+					fail("coherence", sigOf("coherence", err.Error()), fmt.Sprintf("after recovery and %d further operations: %s", done, err.Error()))
 				}
 			}
 		}
